@@ -229,6 +229,22 @@ def _task15_ctx(arg):
             # extensible: prefix + numeral matched in full iff canonical and in range
             sg = {'Integer': '', 'IntegerSigned': '+', 'PositiveInteger': '+', 'NegativeInteger': '-', 'UnsignedInteger': ''}[variant]
             eexpr = ctor(variant, lo, hi, True)
+            pe = _mk(eexpr)
+            for num in nums:
+                for L in ('a', ' ', '5', '12', 'a-', 'a+', '.'):
+                    for Rt in ('', ' ', 'a', '5', '.'):
+                        t = L + num + Rt
+                        cnt['extensible_prefix_checks'] += 1
+                        for m, a, b in pe.get_matches_and_pos(t):
+                            body = m.lstrip('+-')
+                            na = a + len(m) - len(body)
+                            if not (ok(body, lo, hi) and (na == 0 or not t[na - 1].isdigit())):
+                                viol.append(V(f'C15|{eexpr}|free-text|{t}',
+                                              f"{eexpr}: in {t!r} reported {m!r} at {a}:{b}: not a canonical in-range numeral, or directly preceded by a digit",
+                                              f"from mc.props.numeric import ok\np = {eexpr}\nt = {t!r}\n"
+                                              f"for m, a, b in p.get_matches_and_pos(t):\n    body = m.lstrip('+-')\n    na = a + len(m) - len(body)\n"
+                                              f"    assert ok(body, {lo}, {hi}) and (na == 0 or not t[na - 1].isdigit()), (m, a, b)"))
+                                break
             for prefix in ('a', 'x-', ' ', '+', 'a.'):
                 if variant == 'UnsignedInteger' and prefix[-1] in '+-':
                     continue
@@ -409,6 +425,30 @@ def _task16(arg):
                             bad += 1
                             viol.append(V(f'C16|{expr}|is_exact_match|{cand}', f"{expr}: is_exact_match({cand!r}) is {em}, expected {exp_em}",
                                           f"p = {expr}\nassert p.is_exact_match({cand!r}) == {exp_em}"))
+            # extensible form in free text: whatever is reported is never directly preceded by a digit (documented
+            # persistent assertion) and is itself a valid decimal of this variant
+            try:
+                pe = _mk(dctor(variant, lo, hi, mn, mx, True))
+            except Exception as e:  # noqa: BLE001
+                viol.append(V(f'C16|{expr}|extensible|raised:{type(e).__name__}', f"{dctor(variant, lo, hi, mn, mx, True)} raised {type(e).__name__}",
+                              'p = ' + dctor(variant, lo, hi, mn, mx, True)))
+                continue
+            for ip in ips:
+                for frac in fracs[:7]:
+                    for L in ('', ' ', 'a', '5', '12', '-', '+'):
+                        t = L + ip + '.' + frac + ' '
+                        cnt['candidates'] += 1
+                        for m, a, b in pe.get_matches_and_pos(t):
+                            body = m.lstrip('+-')
+                            bi, _, bf = body.partition('.')
+                            okm = (a == 0 or not t[a - 1].isdigit()) and (bi == '' and lo == 0 or ok(bi, lo, hi)) \
+                                and bf.isdigit() and len(bf) >= mn and (mx is None or len(bf) <= mx)
+                            if not okm and bad < 8:
+                                bad += 1
+                                viol.append(V(f'C16|{expr}|extensible-free|{t}',
+                                              f"{dctor(variant, lo, hi, mn, mx, True)}: in {t!r} reported {m!r} at {a}:{b} (preceded by {t[a - 1:a]!r})",
+                                              f"p = {dctor(variant, lo, hi, mn, mx, True)}\nt = {t!r}\n"
+                                              f"assert all(a == 0 or not t[a - 1].isdigit() for m, a, b in p.get_matches_and_pos(t))"))
             # extensible with a prefix
             sg = {'Decimal': '', 'DecimalSigned': '+', 'PositiveDecimal': '+', 'NegativeDecimal': '-', 'UnsignedDecimal': ''}[variant]
             try:
